@@ -84,6 +84,25 @@ def run_shard(ctx):
                                  "json_dump": thorough or rng.random() < 0.5})
         if j == 0:
             ctx.sample({"ddl": ddl[:700], "modes": MODES})
+    # enumerated key clauses: every pattern of sort directions over 2..3 key columns, named or not, [NON]CLUSTERED or not -
+    # primary_key must stay a list of the table's column names
+    import itertools
+    k = 0
+    for ncols in (2, 3):
+        for orders in itertools.product([None, "ASC", "DESC"], repeat=ncols):
+            for name in (None, "pk_t"):
+                for modifier in (None, "CLUSTERED"):
+                    k += 1
+                    if not ctx.mine(k):
+                        continue
+                    cols = [S.make_column("c%d" % q, (["int"], None), []) for q in range(4)]
+                    cl = {"kind": "pk", "cols": ["c%d" % q for q in range(ncols)], "name": name, "orders": list(orders), "modifier": modifier}
+                    t = {"schema": None, "name": "t", "prefix": "plain", "items": [("col", c) for c in cols] + [("clause", cl)]}
+                    layout = [None, {"case": "lower"}][k % 2]
+                    ddl = finish_script([render(S.table_tokens(t), layout, rng), "DROP TABLE old_t;", "DROP TABLE s.old_t2;"])
+                    for mode in ("sql", "mssql", "bigquery", "oracle"):
+                        check_case(ctx, {"gen": "key_orders", "ddl": ddl, "ctor": {}, "mode": mode, "group_by_type": bool(k % 3 == 0), "json_dump": True})
+                    ctx.obs["enumerated_key_order_patterns"] += 1
     corp = [c for c in load_corpus() if c["ok"]]
     n = ctx.budget(96, len(corp) + ctx.nshards)
     for j in range(n):
